@@ -5,6 +5,7 @@ batched and series are sharded.
 import PromqlVerif.Proofs.Den
 import PromqlVerif.Proofs.Grid
 import PromqlVerif.Proofs.IterProof
+import PromqlVerif.Proofs.SelOpProof
 namespace PromqlVerif.C02
 open PromqlVerif Val
 
@@ -65,6 +66,41 @@ theorem memoized_scan_is_reference (S : List (Sample V)) (hs : SortedT S) (delta
     (refs : List Int) (hr : refs.Pairwise (· ≤ ·)) :
     selectPointsM delta (Memo.new S) refs = refs.map (fun r => selectSample delta r S) :=
   selectPoints_along_steps S hs delta hd refs hr
+
+/-- the per-step vector of the selector operator, written with the series' sample lists -/
+theorem selector_step_eq (c : Ctx V) (s : VSel) (t : Int) :
+    (engSelector c s false).step t =
+      .ok (selectStep c.lookback ((matchingSeries c s).map (·.samples)) (t - s.offsetAt c.start)) := by
+  simp only [engSelector, selectStep, enum]
+  rw [enumFrom_map, List.filterMap_map]
+  congr 1
+
+/-- **the selector operator as it is written**: `vectorSelector.Next` keeps one memoized iterator
+per series for the whole query and fills the step vectors of a batch series by series. Modelled
+as written (`SelOp.lean`): for every storage with sorted series, every matcher set, lookback
+`≥ 0`, offset / @, and every split of non-decreasing step times into batches, the stream of step
+vectors it produces is the per-step selection `engSelector` is defined by. -/
+theorem selector_operator_stream (c : Ctx V) (s : VSel) (hsorted : ∀ sr ∈ c.st, SortedT sr.samples)
+    (hlb : 0 ≤ c.lookback) (batches : List (List Int)) (hmono : batches.flatten.Pairwise (· ≤ ·)) :
+    (vsStream c.lookback (((matchingSeries c s).map (·.samples)).map Memo.new)
+        (batches.map fun b => b.map fun t => t - s.offsetAt c.start)).map Except.ok =
+      batches.flatten.map (engSelector c s false).step := by
+  have hfl : (batches.map fun b => b.map fun t => t - s.offsetAt c.start).flatten =
+      batches.flatten.map fun t => t - s.offsetAt c.start := by
+    induction batches with
+    | nil => rfl
+    | cons b bs ih => simp [ih]
+  rw [vsStream_spec c.lookback hlb _ ?_ _ ?_, hfl]
+  · simp only [List.map_map]
+    apply List.map_congr_left
+    intro t _
+    simp only [Function.comp]
+    exact (selector_step_eq c s t).symm
+  · intro sm hsm
+    obtain ⟨sr, hsr, rfl⟩ := List.mem_map.mp hsm
+    exact hsorted sr (List.mem_filter.mp hsr).1
+  · rw [hfl]
+    exact hmono.map _ (fun a b h => by omega)
 
 /-- the leaf cursor protocol enumerates exactly the step grid, for every step count -/
 theorem cursor_enumerates_grid (w : Window) (hs : 0 < w.step) (hle : w.start ≤ w.stop) (B : Nat) (hB : 0 < B) :
